@@ -204,6 +204,26 @@ def run(index, rep, tier):
             ok = bool(pops) and bool(dcp) and all(cfg.dominated_by(d, lambda n: n.id in ids) for d in dcp)
             rep.check(ok, "R12.2", f.qualname, "populate dominates __deepcopy__(memo=memo)", fn_where(f), "%s pre-seeds the memo with its namespace before deep-copying with that memo" % f.qualname,
                       "%s no longer pre-seeds the memo with the namespace and its taxa before `__deepcopy__(memo=memo)`: the 'namespace-scoped' copy gets its own copy of the namespace and taxa" % f.qualname)
+            # ... and the memo it pre-seeds is a dictionary: with the default memo=None the helper has nothing to fill
+            if pops and len(mset) == 1:
+                mv_ = list(mset)[0]
+
+                def _none_path(a_, lab, b_, mv_=mv_):
+                    if a_.kind == "test" and isinstance(a_.ast, ast.Compare) and len(a_.ast.ops) == 1 and norm(a_.ast.left) == mv_ and is_none(a_.ast.comparators[0]):
+                        if isinstance(a_.ast.ops[0], ast.Is):
+                            return lab == "t"
+                        if isinstance(a_.ast.ops[0], ast.IsNot):
+                            return lab == "f"
+                    return lab != "e"
+
+                def _made_dict(n_, mv_=mv_):
+                    return isinstance(n_.ast, ast.Assign) and norm(n_.ast.targets[0]) == mv_ and (isinstance(n_.ast.value, ast.Dict) or (isinstance(n_.ast.value, ast.Call) and call_name(n_.ast.value) == "dict"))
+                defaults_none = mv_ in f.all_params
+                seen_ = cfg.reach([cfg.entry], avoid=_made_dict, follow_exc=False, edge_ok=_none_path)
+                rebinds = [n_ for n_ in cfg.nodes if isinstance(n_.ast, ast.Assign) and norm(n_.ast.targets[0]) == mv_ and not _made_dict(n_)]
+                okm = not (defaults_none and any(p_ in seen_ for p_ in pops)) and not rebinds
+                rep.check(okm, "R12.2", f.qualname, "the memo may be None when it is pre-seeded", fn_where(f, (rebinds[0].ast if rebinds else pops[0].ast)), "%s makes `%s` a dictionary before pre-seeding it" % (f.qualname, mv_),
+                          "%s can hand `%s` = None to populate_memo_for_taxon_namespace_scoped_copy (which then fills nothing and returns None) or re-binds it from a helper's result: clone(1) / copy.copy() with the default memo become full deep copies - the 'namespace-scoped' copy has a namespace and taxa of its own, and comparing it with its source raises TaxonNamespaceIdentityError" % (f.qualname, mv_))
             g = index.function(cq + "._clone_from")
             cfg = cfg_of(g)
             dc = [n for n in cfg.nodes if any(norm(c.func) == "copy.deepcopy" and _memo_arg(c) is not None and isinstance(_memo_arg(c), ast.Name) for c in node_calls(n))]
